@@ -150,9 +150,35 @@ Definition check_resolvers : rd verdict :=
   let vprop := if hasintent then prop_ok 73 (negb ierr && strs_eqb ilist expected) [] else VOk in
   ret (combine_verdicts [vprop; vdiff]).
 
+(* kind 7: the attack command with an unlimited / limited rate, with or without -max-workers *)
+Definition check_guard_cli : rd verdict :=
+  v <- getstr ;; hasdur <- getbool ;; hasmaxw <- getbool ;; refused <- getbool ;; failed <- getbool ;;
+  nres <- getz ;; served <- getz ;;
+  match rate_set true (50, 1000000000) v with
+  | None => ret (VDiff 80 [])
+  | Some r =>
+      let unl := unlimited_guard r in
+      ret (combine_verdicts
+        [ prop_ok 81 (Bool.eqb refused (unl && negb hasmaxw)) [fst r; snd r];
+          (* a command that is not refused runs: it sends requests *)
+          prop_ok 82 (refused || (negb failed && (0 <? nres))) [nres] ])
+  end.
+
+(* kind 8: -dns-ttl through the command; lookups counted at the name server *)
+Definition check_dnsttl_cli : rd verdict :=
+  v <- getstr ;; ran <- getbool ;; nres <- getz ;; okc <- getz ;; queries <- getz ;;
+  match dnsttl_set v with
+  | None => ret (VDiff 85 [])
+  | Some ttl =>
+      if negb ran || (okc <? 10) then ret (VDiff 86 [nres; okc])
+      else ret (prop_ok 83 (if ttl <? 0 then okc <=? queries else queries <=? 8) [ttl; queries; okc])
+  end.
+
 Definition check : rd verdict :=
   kind <- getz ;;
-  if kind =? 1 then check_rate
+  if kind =? 7 then check_guard_cli
+  else if kind =? 8 then check_dnsttl_cli
+  else if kind =? 1 then check_rate
   else if kind =? 11 then check_rate_intent
   else if kind =? 12 then check_rate_seq
   else if kind =? 2 then check_headers
